@@ -471,6 +471,10 @@ class ContractInterp(Interp):
             st.assumed_used.add(f"assumed contract: {c.fn}" + (f" ({c.note})" if c.note else ""))
         else:
             st.notes.append(f"callee by contract: {c.fn}")
+        for g, t in c.ghost_init.items():
+            if t != "events" and g not in st.ghost:
+                # a ghost of the callee that the caller does not track: unconstrained from here on
+                st.ghost[g] = mk_sym(st, self.tenv, self.tenv.parse(t), st.fresh_name("ghost_" + g))
         env = self.contract_env(c, am)
         where = f"line {getattr(node, 'lineno', '?')}" if node is not None else ""
         for i, r in enumerate(c.requires):
